@@ -55,6 +55,22 @@ Theorem C11_dot_outside_class : forall rest, m_map_re (46%N :: rest) = dot_repla
 Proof. reflexivity. Qed.
 Print Assumptions C11_dot_outside_class.
 
+(* the three statements above are instances of one: read the pattern as I-Regexp reads it lexically - escape pairs, character classes whose
+   items are escape pairs or characters other than backslash and brackets, dots, other characters (Proofs/MapReExact.v; every I-Regexp is
+   such a sequence, and so is every pattern [plex] reads).  Then map_re's result is the same sequence printed with every dot that is neither
+   escaped nor inside a class replaced by the host expression for "one character other than CR and LF", and nothing else changed. *)
+From JP Require Import Proofs.MapReExact.
+Theorem C11_map_re_exact : forall ts, forallb ptok_ok ts = true -> m_map_re (pr false ts) = pr true ts.
+Proof. exact map_re_exact. Qed.
+Print Assumptions C11_map_re_exact.
+Theorem C11_map_re_lexed : forall p ts, plex (S (length p)) p = Some ts -> m_map_re p = pr true ts.
+Proof. exact map_re_lexed. Qed.
+Print Assumptions C11_map_re_lexed.
+Example C11_map_re_exact_example :    (* a\.[.\]x].b : one escaped dot, one class holding a dot, an escaped bracket and x, one free dot *)
+  plex 20 [97; 92; 46; 91; 46; 92; 93; 120; 93; 46; 98]%N = Some [PRaw 97; PEsc 46; PClass [KRaw 46; KEsc 93; KRaw 120]; PDot; PRaw 98] /\
+  m_map_re [97; 92; 46; 91; 46; 92; 93; 120; 93; 46; 98]%N = [97; 92; 46; 91; 46; 92; 93; 120; 93]%N ++ dot_replacement ++ [98%N].
+Proof. split; vm_compute; reflexivity. Qed.
+
 (* regenerated from the current source: fullmatch and search of the regex module, with no flag argument, called exactly
    once per evaluation with (map_re(pattern), string) *)
 Theorem C11_no_dialect_flags : g_match_flags = 0%nat /\ g_search_flags = 0%nat /\
